@@ -3,7 +3,7 @@
    controls, header rules or credentials, in the order read from the source (Tables.v);
    handle_request = proxyConn.handle up to roundTrip.  A request is what net/http.ReadRequest hands over.
    after_removal h = h without the documented hop-by-hop fields and the names its Connection field nominates. *)
-From G01 Require Import ReqE2E ViaProofs ReqProofs Ob18 Ob01.
+From G01 Require Import ReqE2E ViaProofs ReqProofs E2EProofs Ob18 Ob01.
 
 (* Every end-to-end field reaches the next hop with the same values in the same per-name order. *)
 Theorem T01_end_to_end_preserved : forall tag r r' k,
@@ -144,6 +144,31 @@ Theorem T01_model_satisfies_oracle : forall tag r,
   scase_prop_ok {| s_tag := tag; s_in := r; s_out := result_of (modify_request tag r) |} = true.
 Proof. exact f01_model_satisfies_oracle. Qed.
 Print Assumptions T01_model_satisfies_oracle.
+
+(* END TO END.  For every well-formed client request (wf_x: one-digit version, IPv4-like client address, not CONNECT, a
+   path net/url does not re-encode, no "Pragma: no-cache" without Cache-Control, at most one User-Agent line, a non-empty
+   first Accept-Encoding value, framing fields consistent with the body -- the excluded inputs are the known findings and
+   net/http quirks listed in design.d/C01.md) the observation that e2e_model predicts -- ReadRequest layer, this pipeline,
+   Transport layer -- has the client's method, target and framing, never forwards the instance's own Via element, and
+   passes the per-name predicate xkey_ok of the run-time oracle for EVERY field name.  So the oracle evaluated on the
+   implementation (xcase_prop_ok) and the model are tied by a theorem, not only by the run. *)
+Theorem T01_e2e_model_satisfies_oracle : forall x e,
+  wf_x x = true -> e2e_model x = XSent e ->
+  xo_method e = xi_method x /\
+  xo_target e = (if xi_mode x =? 1 then b "http://" ++ sent_host x else []) ++ sent_path_query x /\
+  xo_framing e = norm_framing (xi_framing x) (xi_blen x) /\
+  own_elem (xi_tag x) (raw_values via_key (after_removal (hin_of x))) = false /\
+  forall k, xkey_ok x (hin_of x) (xo_hdr e) k = true.
+Proof. exact f01_e2e_meets_oracle. Qed.
+Print Assumptions T01_e2e_model_satisfies_oracle.
+
+(* ... and when the model does not forward such a request, the reason is a detected loop, answered 400. *)
+Theorem T01_e2e_model_refusal : forall x st,
+  wf_x x = true -> e2e_model x = XRefused st ->
+  framing_contradictory (after_removal (l1_hdr x)) = false ->
+  own_sub (xi_tag x) (raw_values via_key (after_removal (hin_of x))) = true /\ st = 400.
+Proof. exact f01_e2e_refusal. Qed.
+Print Assumptions T01_e2e_model_refusal.
 
 (* The stack is the written-out composition, in the source's order. *)
 Theorem T01_stack_order : forall tag r, modify_request tag r = pipeline tag r.
